@@ -54,6 +54,16 @@ func specialFamilies() []*scaleFam {
 			{Prog: "function use(x) { return match (x) { [n1, n2, n3, n4, n5, n6, n7, n8, n9, n10] => helper() + n10, _ => 0 } }\nfunction helper() { return n9 }\nBEGIN { n9 = 1000 }\n{ print use($), helper() }\n", Input: `[[1,2,3,4,5,6,7,8,9,10]]`},
 			{Prog: "{ print match ($) { [_, y] => \"two\", [_, x, z] => x + _, _ => \"other\" } }\n", Input: `[[1,2],[1,2,3],[1]]`},
 		}),
+		textFam("C19", "pattern names that start with $", []textProg{
+			{Prog: "{ print match ($) { [$a, $b] => $a + $b, _ => \"none\" } }\n", Input: `[[1, 2], [3]]`},
+			{Prog: "{ print match ($) { [$index, v] => $index + \"=\" + v, other => other }\nprint $index }\n", Input: `[["k", "v"], 7]`},
+		}),
+		textFam("C04", "programs that handle the document's numbers without storing into it", []textProg{
+			{Prog: "{ for (x in $) { x++ } for (i, y in $) { y += 10; --y } }\nEND { print \"done\" }\n", Input: `[[1, 2], [3, 4]]`, Root: true},
+			{Prog: "{ for (k, v in $) { v++; t = v; t++ } n = $.a; n++; m = $.b[0]; m -= 1 }\nEND { print n, m }\n", Input: `{"a": 1, "b": [5, 6]}`, Root: true},
+			{Prog: "BEGIN { a = [1, 2]; for (x in a) { x++ } print a; o = {p: 1}; for (k, v in o) { v++ } print o }\n"},
+			{Prog: "function inc(v) { v++; return v }\n{ inc($[0]); inc($[1][0]); w = $[1]; w[0]++ }\n", Input: `[1, [2]]`, Root: true},
+		}),
 		textFam("C15", "sort, contains and pops on values whose written forms differ", []textProg{
 			{Prog: "{ print $.sort(); print $ }\n", Input: `[[0.5, 0.00002, "N/A"], ["12", 1500000], ["x", 2000000, 25], [1000000, 999999, "1e6", "1000000"], [0.0001, 0.00001, "0.00001", 1e21, 1e20, "1e+21"], [10, 9, 100, 1e3, "9"], [-0, 0, "-0", "0"], [true, "true", 1, "1", null, "null"]]`},
 			{Prog: "{ a = $.sort(); b = a.sort(); print a == b || true, a[0], a[-1], a.length(); print $.contains(1000000), $.contains(\"1000000\"), $.contains(0.00002), $.contains(\"2e-05\") }\n", Input: `[[1000000, 0.00002, "b"], [2000000, "a", 1000000]]`},
